@@ -362,6 +362,7 @@ func (res *CheckResult) checkExpression(lit parser.ValueExpr, requiredType strin
 		res.assertHasType(lit, requiredType, TypeAccount)
 	case *parser.RatioLiteral:
 		res.assertHasType(lit, requiredType, TypePortion)
+		res.checkRatioLiteral(lit)
 	case *parser.AssetLiteral:
 		res.assertHasType(lit, requiredType, TypeAsset)
 	case *parser.NumberLiteral:
@@ -372,6 +373,19 @@ func (res *CheckResult) checkExpression(lit parser.ValueExpr, requiredType strin
 		res.checkExpression(lit.Left, TypeAny)
 		res.checkExpression(lit.Right, TypeAny)
 	}
+}
+
+// Returns whether the ratio literal is valid (e.g. "1/0" is not)
+func (res *CheckResult) checkRatioLiteral(lit *parser.RatioLiteral) bool {
+	if lit.Denominator.Sign() != 0 {
+		return true
+	}
+
+	res.Diagnostics = append(res.Diagnostics, Diagnostic{
+		Range: lit.Range,
+		Kind:  &DivideByZero{},
+	})
+	return false
 }
 
 func (res *CheckResult) assertHasType(lit parser.ValueExpr, requiredType string, actualType string) {
@@ -490,7 +504,9 @@ func (res *CheckResult) checkSource(source parser.Source) {
 				variableLiterals = append(variableLiterals, *allotment)
 				res.checkExpression(allotment, TypePortion)
 			case *parser.RatioLiteral:
-				sum.Add(sum, allotment.ToRatio())
+				if res.checkRatioLiteral(allotment) {
+					sum.Add(sum, allotment.ToRatio())
+				}
 			case *parser.RemainingAllotment:
 				if isLast {
 					remainingAllotment = allotment
@@ -543,7 +559,9 @@ func (res *CheckResult) checkDestination(destination parser.Destination) {
 				variableLiterals = append(variableLiterals, *allotment)
 				res.checkExpression(allotment, TypePortion)
 			case *parser.RatioLiteral:
-				sum.Add(sum, allotment.ToRatio())
+				if res.checkRatioLiteral(allotment) {
+					sum.Add(sum, allotment.ToRatio())
+				}
 			case *parser.RemainingAllotment:
 				if isLast {
 					remainingAllotment = allotment
